@@ -297,6 +297,14 @@ func (k Keeper) StartRequestContext(
 		return types.ErrRequestContextNotPaused
 	}
 
+	// a context that has used up its batches and has none in flight (a zero-height export leaves
+	// such contexts behind, paused) must not be given another batch
+	if requestContext.BatchCounter > 0 && !k.HasRequestBatchExpiration(ctx, requestContextID) &&
+		(!requestContext.Repeated ||
+			(requestContext.RepeatedTotal > 0 && int64(requestContext.BatchCounter) >= requestContext.RepeatedTotal)) {
+		return sdkerrors.Wrap(types.ErrRequestContextCompleted, "no batch left")
+	}
+
 	requestContext.State = types.RUNNING
 	k.SetRequestContext(ctx, requestContextID, requestContext)
 
